@@ -69,6 +69,7 @@ pub fn cli_main() {
             };
             let mut ctx = Ctx::new(&p, Tier::Quick, seed);
             ctx.replay_mode = true;
+            ctx.replay_file = Some(std::fs::canonicalize(&args[2]).map(|p| p.display().to_string()).unwrap_or_else(|_| args[2].clone()));
             props::configure(&mut ctx);
             match props::replay(&ctx, &sub, &case) {
                 Ok(()) => {}
